@@ -15,6 +15,7 @@ pub mod c13;
 pub mod c14;
 pub mod c15;
 pub mod c16;
+pub mod c17;
 pub mod sweep;
 
 use crate::run::{Acc, Ctx};
@@ -56,6 +57,7 @@ registry! {
     "C14" => c14,
     "C15" => c15,
     "C16" => c16,
+    "C17" => c17,
 }
 
 use crate::mon::Mon;
